@@ -5,6 +5,9 @@ pub mod c02;
 pub mod c03;
 pub mod c04;
 pub mod c05;
+#[cfg(feature = "cshim")]
+pub mod c06;
+pub mod c07;
 pub mod c09;
 pub mod c10;
 
@@ -29,6 +32,9 @@ pub fn subs(prop: &str) -> Vec<Box<dyn DynSub>> {
         "C03" => c03::subs(),
         "C04" => c04::subs(),
         "C05" => c05::subs(),
+        #[cfg(feature = "cshim")]
+        "C06" => c06::subs(),
+        "C07" => c07::subs(),
         "C09" => c09::subs(),
         "C10" => c10::subs(),
         _ => Vec::new(),
